@@ -126,6 +126,10 @@ func (e *Exec) specWrites(fn *ssa.Function, spec *FuncSpec, ws map[string]bool) 
 func (e *Exec) modHeapsSyntactic(fn *ssa.Function, spec *FuncSpec) []string {
 	env := &SpecEnv{ex: e, typeOnly: true, vars: map[string]Val{}, fn: fn, spec: spec}
 	env.bindParamsTypesOnly(fn)
+	if fn == nil {
+		// contract of an interface method: the receiver is an interface value
+		env.vars["recv"] = Val{T: "0", S: sIface, GoT: types.NewInterfaceType(nil, nil)}
+	}
 	var out []string
 	for _, c := range spec.Modifies {
 		env.pkgOverride = c.Pkg
@@ -1092,7 +1096,9 @@ func (e *Exec) contractCall(fr *frame, st *State, callee *ssa.Function, spec *Fu
 	}
 	for _, c := range spec.Requires {
 		v := env.evalClause(c)
+		e.ctx.group = c.Group
 		o := e.oblige(fr, st, "pre:"+short, "precondition of "+key+": "+c.Src, pos, v.T)
+		e.ctx.group = ""
 		_ = o
 	}
 	// extra call-site requirements of the caller's contract (lock discipline)
@@ -1301,7 +1307,9 @@ func (e *Exec) contractCall(fr *frame, st *State, callee *ssa.Function, spec *Fu
 			}
 		}
 		v := post.evalClause(c)
+		e.ctx.group = c.Group
 		e.ctx.assume(imp(st.pc, v.T))
+		e.ctx.group = ""
 	}
 	if spec.Extern || spec.Trusted || callee == nil || callee.Blocks == nil {
 		e.trust("contract of " + key + " (" + spec.Line + ") is assumed, not verified")
